@@ -126,6 +126,12 @@ ObsDone(o, c, out, pub) ==
               ELSE o0
     [] OTHER -> o0
 
+\* C08: end of a recovery script (time > timeout, then a bounded number of successful
+\* sequential calls): the last call must have been admitted and the breaker closed
+ObsProbe(o, res, pub) ==
+  [o EXCEPT !.viol = IF res = "ok" /\ pub = "closed" THEN <<>>
+                     ELSE <<V("Recovers", o, res \o "/" \o pub)>>]
+
 \* caller c never came back (lock held forever / deadlock)
 ObsStuck(o, c, at) == [o EXCEPT !.viol = <<V("NeverBlocks", o, at)>>]
 ============================================================================
